@@ -137,17 +137,19 @@ static void run_pair(const char * pat, int nn, const char * hz, int exp, const i
                                                  only at a non-digit */
     static const int defaults[2] = {-1, 1};
     int got, k;
+    char * pb = malloc(strlen(pat) + 1);      /* the pattern in a block of exactly its size: a look-ahead behind its NUL is an ASan report */
     int32_t none[1] = {0};
+    strcpy(pb, pat);
     memcpy(hb, hz, hlen);
     memcpy(hbt, hz, hlen);
     hbt[hlen] = '\n';
     npairs++;
 
-    got = matchCommand(pat, hb, hlen, NULL, 0, 0) ? 1 : 0;
+    got = matchCommand(pb, hb, hlen, NULL, 0, 0) ? 1 : 0;
     ncalls++;
     if (got != exp) mismatch(pat, hz, "match", 0, 0, exp, none, 0, got, none, 0);
 
-    got = SCPI_Match(pat, hb, hlen) ? 1 : 0;
+    got = SCPI_Match(pb, hb, hlen) ? 1 : 0;
     ncalls++;
     if (got != exp) mismatch(pat, hz, "SCPI_Match", 0, 0, exp, none, 0, got, none, 0);
 
@@ -155,7 +157,7 @@ static void run_pair(const char * pat, int nn, const char * hz, int exp, const i
         /* the length given to SCPI_Match is an upper bound: the header may end earlier, at a NUL (a fixed-size field) */
         char * hp = calloc(hlen + 4, 1);
         memcpy(hp, hz, hlen);
-        got = SCPI_Match(pat, hp, hlen + 3) ? 1 : 0;
+        got = SCPI_Match(pb, hp, hlen + 3) ? 1 : 0;
         ncalls++;
         if (got != exp) mismatch(pat, hz, "SCPI_Match+padded", 0, 0, exp, none, 0, got, none, 0);
         free(hp);
@@ -218,7 +220,7 @@ static void run_pair(const char * pat, int nn, const char * hz, int exp, const i
         SCPI_ErrorClear(&ctx);
         free(v);
     }
-    free(hb);
+    free(hb); free(pb);
     free(hbt);
 }
 
